@@ -43,6 +43,8 @@ CFG = dict(
                  "2": "the observed history violates the property predicate (Check/C19c.v: round trip, spec_chan, spec_ws, "
                       "spec_http, CHttpRaw = the 400-iff classification, CHttpE2E = written without error and read equal, CAssert 1 = a parked "
                       "Write ends with its context, CAssert 2 = the channel transport hands over a 1 MiB envelope unchanged, "
+                      "CAssert 6 = a WebSocket Write parked on a connection whose peer does not read (bounded relay), and a second one queued behind it, have "
+                      "returned an error at the quiescent point after their contexts ended (cancel, cancel with a far deadline, deadline passing), "
                       "CAssert 5 = concurrent writers on one connection: exactly once, unchanged, per-writer order, "
                       "CAssert 3 = Write returns an error for an envelope that the far end refused with 503 / 400 (regression of http-write-ignores-status, "
                       "fixed in /repo 2aacfa6: a nil from Write means 'answered 200', and 200 is answered only with the delivery))",
@@ -68,7 +70,8 @@ CFG = dict(
          "a Content-Length larger than what is sent (unreadable) and smaller (the prefix), judged by http_classify (CHttpRaw); "
          "a FAULT between the delivery and its answer (the connection drops after ServeHTTP handed the envelope over, before the 200 leaves) on the "
          "first / middle / two consecutive / last envelope: whatever Write returned the receiver reads every envelope at most once, in write order "
-         "(CHttpE2EFault); free-running CONCURRENT WRITERS on one connection of every transport (channel, WebSocket: 2 and 8 writers x 400 "
+         "(CHttpE2EFault); a WebSocket Write that is really BLOCKED (the in-memory pair with a relay bounded to 64 KiB, nobody reading, a 300 KB envelope and a second "
+         "Write queued behind it) x {cancel, cancel of a context with a far deadline, deadline passing} in a bubble; free-running CONCURRENT WRITERS on one connection of every transport (channel, WebSocket: 2 and 8 writers x 400 "
          "self-describing envelopes up to 60 KB; HTTP: x 60): everything read decodes, is self-consistent, arrives exactly once, per-writer order kept (CAssert 5); "
          "non-trivial = distinct description hash",
     assumptions=["coder/websocket, net/http, clockwork, Go channels/select and the scheduler are modelled, not verified",
